@@ -101,7 +101,7 @@ fn cases_for(open: &Node, coins: &[(CoinID, u128, u64)], difficulties: &[(u32, b
             out.push(Case { label: format!("{} proof of 40 zero bytes", base), tx: mint_tx(*coin, *value, *d, &[0u8; 40], 0, false), valid: false });
             // unit corruptions: remove / bit-flip each 40-byte unit (all units for small proofs, a spread otherwise)
             let units = pb.len() / 40;
-            let step = if *d <= 4 || thorough { 1 } else { (units / 6).max(1) };
+            let step = if *d <= 4 || (thorough && *d <= 6) { 1 } else { (units / if thorough { 16 } else { 6 }).max(1) };
             for u in (0..units).step_by(step) {
                 let mut removed = pb.clone();
                 removed.drain(u * 40..(u + 1) * 40);
